@@ -101,3 +101,24 @@ Fixpoint spec_from (hr : list hop) (ops : list hop) : list (option R) :=
   end.
 Definition spec_answers (ops : list hop) : list (option R) := spec_from [] ops.
 End Holder.
+
+(* ---- a stored list of operations for one site / key and step, asked for its product ----------------------------------
+   Control.get_controls / ChainControl.get_single_site_controls: the first stored operation is taken as it is, every
+   further one is composed as  new @ product so far ; the object is left as it was (q_pure).  q_inplace is the variant
+   that writes the product into the storage of the first operation ("current[...] = contr @ current"): the answer of
+   the first question is the same, the object is not. *)
+Section StoredProduct.
+Variable A : Type.
+Variable mul : A -> A -> A.
+Definition product_of (c : A) (t : list A) : A := fold_left (fun acc x => mul x acc) t c.
+Definition q_pure (l : list A) : option A * list A :=
+  match l with [] => (None, []) | c :: t => (Some (product_of c t), l) end.
+Definition q_inplace (l : list A) : option A * list A :=
+  match l with [] => (None, []) | c :: t => (Some (product_of c t), product_of c t :: t) end.
+(* n questions in a row: the answers, and the object afterwards *)
+Fixpoint ask (q : list A -> option A * list A) (n : nat) (l : list A) : list (option A) * list A :=
+  match n with
+  | O => ([], l)
+  | S n' => let '(a, l') := q l in let '(r, l'') := ask q n' l' in (a :: r, l'')
+  end.
+End StoredProduct.
